@@ -36,8 +36,15 @@ func init() {
 		rec := &recorder{}
 		g := &generate.Generator{}
 		g.SetDestination(rec)
-		if a[1] != "-" {
-			g.SetTransform(transformsOfTok(a[1])...)
+		// a1 is a "/"-separated history of SetTransform calls ("-" = no arguments; a lone "-" = never called)
+		if segs := strings.Split(a[1], "/"); len(segs) > 1 || segs[0] != "-" {
+			for _, sg := range segs {
+				if sg == "-" {
+					g.SetTransform()
+				} else {
+					g.SetTransform(transformsOfTok(sg)...)
+				}
+			}
 		}
 		d := string(hexarg(a[2]))
 		var err error
